@@ -31,7 +31,9 @@ def same_doc(df, doc):
 
 
 def name_of(n):
-    return n["dir"] + n["stem"] + n["ext"]
+    # the second stem is realised with a dot inside it when the name has an extension (flow_0.5.csv): Path.stem is then "b_0.5"
+    stem = "b_0.5" if (n["stem"] == "b" and n["ext"]) else n["stem"]
+    return n["dir"] + stem + n["ext"]
 
 
 def replay_store(ctx, csv, d, tmproot, k):
